@@ -20,6 +20,7 @@ TABLE = [
  ("regress/C05/stale-attempt-after-graceful-close-7248753.json", "7248753"),
  ("regress/C10/trust-after-unregister-inflight-report-8c57a91.json", "8c57a91"),
  ("regress/C18/direct-state-overwritten-before-notified.json", "7c952f8"),
+ ("regress/C10/trusted-after-unregister-connection-ended-by-itself-1ff4d72.json", "1ff4d72"),
 ]
 pairs = TABLE
 if len(sys.argv) > 2:
